@@ -127,7 +127,11 @@ def flood():
 def main():
     if REPLAY is not None:
         c = REPLAY
-        pr = flood() if c["kind"] == "flood" else run_sequence(c["observer"], c["seq"])
+        if c["kind"] == "deb":
+            import c18_battery
+            pr = c18_battery.SCEN[c["name"]]()
+        else:
+            pr = flood() if c["kind"] == "flood" else run_sequence(c["observer"], c["seq"])
         replay_result(bool(pr), pr[:2])
     bat = Battery({"observers": ["inotify", "polling"], "sequence length": 3, "operations": "start, schedule, schedule with a callback that stops/unschedules, unschedule, unschedule_all, stop, touch, remove root", "deadline per call": "5 s"})
     ops = ["start", "schedule", "schedule:stop", "schedule:unschedule_all", "unschedule", "unschedule_all", "stop", "touch", "rmroot"]
@@ -141,6 +145,13 @@ def main():
             pr = run_sequence(kind, list(seq))
             if pr:
                 bat.fail("C06.sequence", pr[0], {"kind": "seq", "observer": kind, "seq": list(seq), "problems": pr[:2]}, "BaseObserver")
+    # helper threads of the tricks: the debouncer must exit on stop() whenever stop() arrives (W3 wait predicate)
+    import c18_battery
+    for name in ("deb:stop-before-first-wait", "deb:event-before-first-wait"):
+        bat.case(name)
+        pr = c18_battery.SCEN[name]()
+        if pr:
+            bat.fail("C06." + name, pr[0], {"kind": "deb", "name": name}, "EventDebouncer.run")
     bat.case("flood")
     pr = flood()
     if pr:
